@@ -1,5 +1,7 @@
 import Reduino.Lang.Render
 import Reduino.Lang.InF
+import Reduino.Lemmas.C01a
+import Reduino.Lemmas.C01b
 /- helper lemmas for Props/C01.lean (individual Mathlib modules may be imported here) -/
 namespace Reduino.Lemmas.C01
 end Reduino.Lemmas.C01
